@@ -12,13 +12,14 @@ import impl
 
 PROP = "C16"
 RULE = ("histories of 6-14 Calibrator requests in one process mixing all 17 spacecraft, the shipped file, an exact copy "
-        "(recognised md5), a modified copy (unrecognised), a missing and a malformed file, and custom overrides of 0-3 "
+        "(recognised md5), a modified copy (unrecognised), a missing and a malformed file, a file rewritten in place between requests "
+        "(three contents), and custom overrides of 0-3 "
         "top-level entries (channels, thermometers, launch date) whose values differ from the file's; every result is "
         "compared field by field with an independent construction from (spacecraft, custom, file content); "
         "the version reported by a reader (meta_data, dataset attrs) over 3-6 calibrations of ONE reader with changing parameters; "
         "a case = one request inside a history; non-trivial = distinct request preceded by a request with a different "
         "file or a custom override")
-ASSUME = ["coefficient files are not rewritten in place during a history", "json / md5 as in the Python standard library"]
+ASSUME = ["json / md5 as in the Python standard library"]
 TB = ["coqc 8.16.1 kernel; vm_compute for the completeness of the generated coefficient table",
       "translator/gen.py (Gen_Coeffs from calibration.json with Decimal parsing, Gen_Consts spacecraft names)",
       "correspondence check_history evaluated in Coq (entry identities)"]
@@ -81,6 +82,13 @@ def run(res, tier, seed):
         open(bad_path, "w").write("{ this is not json")
         missing = os.path.join(d, "missing.json")
         FILES = {None: (shipped, True), copy_path: (shipped, True), mod_path: (mod, False), bad_path: (None, None), missing: (None, None)}
+        # a file that is REWRITTEN in place between requests: the coefficients follow its content, not its path
+        rw_path = os.path.join(d, "rewritten.json")
+        mod2 = copy.deepcopy(shipped)
+        for sc in names:
+            mod2[sc]["channel_2"]["dark_count"] += 2.5
+            mod2[sc]["channel_4"]["b1"] *= 1.5
+        RW = {"A": (shipped, shipped_bytes), "B": (mod, json.dumps(mod).encode()), "C": (mod2, json.dumps(mod2).encode())}
         # ---------- completeness ----------
         Calibrator.default_coeffs = None
         for sc in names:
@@ -109,13 +117,21 @@ def run(res, tier, seed):
             prev = None
             last_passed = None
             reqs_coq, outs_coq = [], []
+            rw_state = None
             for k in range(rng.randint(6, 14)):
                 sc = rng.choice(names)
-                f = rng.choice([None, None, copy_path, mod_path, mod_path, bad_path, missing])
+                f = rng.choice([None, None, copy_path, mod_path, mod_path, bad_path, missing, rw_path, rw_path])
                 if prev and rng.random() < 0.5:
                     sc, f = prev[0], (prev[1] if rng.random() < 0.7 else f)
                 custom = None
-                table = FILES[f][0]
+                if f == rw_path:
+                    if rw_state is None or rng.random() < 0.6:
+                        rw_state = rng.choice([x for x in "ABC" if x != rw_state])
+                        with open(rw_path, "wb") as fh_:
+                            fh_.write(RW[rw_state][1])
+                    table = RW[rw_state][0]
+                else:
+                    table = FILES[f][0]
                 if prev and prev[0] == sc and prev[2] and rng.random() < 0.6:
                     # same spacecraft, same overridden entries as the previous request, but different values
                     keys = list(prev[2])
@@ -129,7 +145,8 @@ def run(res, tier, seed):
                 passed = copy.deepcopy(custom)
                 if last_passed is not None and rng.random() < 0.3:
                     passed, custom = last_passed
-                ctx = dict(history=h, position=k, spacecraft=sc, file=(os.path.basename(f) if f else None), same_dict_object_as_before=passed is (last_passed or [None])[0],
+                ctx = dict(history=h, position=k, spacecraft=sc, file=(os.path.basename(f) if f else None),
+                           rewritten_file_content=(rw_state if f == rw_path else None), same_dict_object_as_before=passed is (last_passed or [None])[0],
                            custom_keys=sorted(custom) if custom else None, earlier=[(a, os.path.basename(b) if b else None, c_) for a, b, c_ in hist[-3:]], seed=seed)
                 try:
                     c = Calibrator(sc, custom_coeffs=passed, coeffs_file=f)
@@ -177,7 +194,8 @@ def run(res, tier, seed):
                 nontriv = bool(prev) and (prev[1] != f or prev[2] is not None)
                 res.add_case((h, k, sc, f, tuple(sorted(custom)) if custom else None), nontriv,
                              dict(spacecraft=sc, file=(os.path.basename(f) if f else "default"), custom=sorted(custom) if custom else None))
-                fid = {None: "None", copy_path: '(Some "copy")', mod_path: '(Some "mod")', bad_path: '(Some "bad")', missing: '(Some "missing")'}[f]
+                fid = {None: "None", copy_path: '(Some "copy")', mod_path: '(Some "mod")', bad_path: '(Some "bad")', missing: '(Some "missing")',
+                       rw_path: '(Some "rw%s")' % rw_state}[f]   # the model identifies a file by its content
                 keys_all = list(shipped[sc].keys())
                 cu = "[%s]" % "; ".join('(%s, %d)' % (common.slit(kk), 2 * keys_all.index(kk) + 1) for kk in (custom or {}))
                 reqs_coq.append("(%s, %s, %s)" % (common.slit(sc), cu, fid))
@@ -228,7 +246,7 @@ def run(res, tier, seed):
         vshipped = Calibrator.version_hashs.get(__import__("hashlib").md5(shipped_bytes).hexdigest(), {}).get("name")
         pre = ("Definition tbl : table Z := %s.\n" % tbl +
                "Definition FS : fs Z := fun f => match f with None => Some (mkContent Z tbl %s) | Some s => "
-               "if String.eqb s \"copy\" then Some (mkContent Z tbl %s) else if String.eqb s \"mod\" then Some (mkContent Z tbl None) else None end.\n"
+               "if orb (String.eqb s \"copy\") (String.eqb s \"rwA\") then Some (mkContent Z tbl %s) else if orb (String.eqb s \"mod\") (orb (String.eqb s \"rwB\") (String.eqb s \"rwC\")) then Some (mkContent Z tbl None) else None end.\n"
                % (("(Some %s)" % common.slit(vshipped)) if vshipped else "None", ("(Some %s)" % common.slit(vshipped)) if vshipped else "None") +
                "Definition out_eqb (a b : outcome (list (string * Z))) : bool := match a, b with ReadError _, ReadError _ => true | UnknownSpacecraft _, UnknownSpacecraft _ => true "
                "| Result _ x v, Result _ y w => (if list_eq_dec (fun p q : string * Z => match string_dec (fst p) (fst q), Z.eq_dec (snd p) (snd q) with left _, left _ => left _ | _, _ => right _ end) x y then true else false) "
